@@ -4,12 +4,15 @@ package main
 // C03 permissions, C14 hostile strings, C15 directives, C16 mutations).
 
 import (
+	"context"
 	"encoding/json"
 	"fmt"
 	"math/rand"
 	"os"
 	"sort"
 	"strings"
+	"sync"
+	"time"
 
 	"github.com/movio/bramble"
 	"github.com/vektah/gqlparser/v2/ast"
@@ -223,6 +226,35 @@ func runProfile(cfg runCfg, prof string) error {
 			qo.recurAlias = false
 		}
 		q, vars, doc := env.genBoundedQuery(r, qo, 400)
+		if prof == "c05" && i%6 == 1 && i%12 == 1 {
+			// two services each contributing scalar fields to the same objects: their lookups hang off one insertion point
+			env = envs[0]
+			env.world.data = genData(r, env.fed, dataOpts{nullProb: 0.1, safeStrings: true})
+			q, vars = []string{"query Op { movies { id rating x: echoArg(s: \"a\") } }", "query Op { movies { rating score title echoArg(k: SHORT) } }"}[(i/12)%2], map[string]interface{}{}
+			doc, _ = loadQuery(env.gw.es.MergedSchema, q)
+			if doc == nil {
+				return fmt.Errorf("directed query does not validate: %s", q)
+			}
+			big = false
+		}
+		if prof == "c14" && i >= 2*len(hostilePool) && i < 3*len(hostilePool) && envs[0] != nil {
+			// two fragments at one level, each selecting fields of the same other service with its own variable: the planner
+			// makes one lookup step per fragment and merges them; the merged request declares and carries both variables
+			env = envs[0]
+			env.world.data = genData(r, env.fed, dataOpts{nullProb: 0, safeStrings: true})
+			h := hostilePool[i%len(hostilePool)]
+			if i%2 == 0 {
+				q = "query Op($v1: String, $v2: String) { movies { id ... on Movie { a: echoArg(s: $v1) } ... on Movie { b: echoArg(s: $v2) c: echoC(s: $v2) } ... on Movie { d: echoC(s: $v1) } } }"
+			} else {
+				q = "query Op($v1: String, $v2: String) { movies { ...ZA id ...ZB } }\nfragment ZA on Movie { a: echoArg(l: [\"x\"], s: $v1) }\nfragment ZB on Movie { b: echoArg(s: $v2) }"
+			}
+			vars = map[string]interface{}{"v1": hostilePool[(i+3)%len(hostilePool)], "v2": h}
+			doc, _ = loadQuery(env.gw.es.MergedSchema, q)
+			if doc == nil {
+				return fmt.Errorf("directed merged-steps query does not validate: %s", q)
+			}
+			sum.Features["variables_of_merged_lookup_steps"]++
+		}
 		if prof == "c14" && i < 2*len(hostilePool) && envs[0] != nil {
 			// every hostile string once as a literal and once as a variable on a field that an entity lookup resolves, with a
 			// second variable that only ANOTHER sub-request uses (and whose name the literals of the pool mention)
@@ -362,13 +394,29 @@ func runProfile(cfg runCfg, prof string) error {
 			}
 			sort.Slice(targets, func(a, b int) bool { return targets[a][0]+targets[a][1] < targets[b][0]+targets[b][1] })
 			if len(targets) > 0 {
-				switch r.Intn(4) {
+				sel, allKind := r.Intn(4), faultKinds[r.Intn(len(faultKinds))]
+				alike := prof == "c05" && i%6 == 1
+				if alike {
+					// in turn, not by odds: every service reached by a lookup fails in the same hard way (same message; on the
+					// directed query the same path too): each of them is still named by an error of its own
+					sel, allKind = 4, []string{"status", "badjson", "toolarge"}[(i/6)%3]
+					sum.Features["all_lookup_services_fail_alike"]++
+				}
+				switch sel {
+				case 4:
+					svcs := map[string]bool{}
+					for _, t := range targets {
+						if t[1] != "root" && !svcs[t[0]] {
+							svcs[t[0]] = true
+							faults = append(faults, faultSpec{Svc: t[0], Target: "*", Kind: allKind})
+						}
+					}
 				case 0: // a whole service
 					t := targets[r.Intn(len(targets))]
 					faults = append(faults, faultSpec{Svc: t[0], Target: "*", Kind: faultKinds[r.Intn(5)]})
 					opts.failing = []string{t[0]}
 				case 1: // everything at once
-					k := faultKinds[r.Intn(len(faultKinds))]
+					k := allKind
 					svcs := map[string]bool{}
 					for _, t := range targets {
 						if !svcs[t[0]] {
@@ -430,11 +478,42 @@ func runProfile(cfg runCfg, prof string) error {
 			opts.faults = faults
 			in["faults"] = faults
 		}
+		env.world.foreignExt = prof == "c05" && r.Intn(2) == 0
 		run, err := env.run(q, vars, hdr)
 		if err != nil {
 			return err
 		}
 		env.world.faultFor = nil
+		if env.world.foreignExt {
+			// the failing service answered with GraphQL errors that carry extensions of their own, naming someone else (a
+			// downstream that is itself a gateway does): the gateway's error still names the service IT called
+			env.world.foreignExt = false
+			owners := map[string]bool{}
+			for _, f := range faults {
+				if f.Kind == "errors_partial" || f.Kind == "errors_null" {
+					owners[f.Svc] = true
+				}
+			}
+			if len(owners) == 1 {
+				var svc *serviceSpec
+				for _, sp := range env.fed.Services {
+					if owners[sp.Name] {
+						svc = sp
+					}
+				}
+				okNamed, d := true, ""
+				for _, e := range run.Resp.Errors {
+					if e.Message == "service exploded" || e.Message == "injected partial failure" {
+						sum.Features["relayed_error_with_foreign_extensions"]++
+						if e.Extensions["serviceName"] != svc.Name || e.Extensions["serviceUrl"] != svc.URL {
+							okNamed = false
+							d = fmt.Sprintf("service %s (%s) answered %q with extensions naming someone else; the gateway's error names %v at %v", svc.Name, svc.URL, e.Message, e.Extensions["serviceName"], e.Extensions["serviceUrl"])
+						}
+					}
+				}
+				sum.GoOracle = append(sum.GoOracle, oracleResult{Case: name, Component: "prop.c05.relayed_errors_name_the_service_called", OK: okNamed, Detail: d})
+			}
+		}
 		in["gateway_data"] = fmt.Sprint(run.Resp.Data)
 		in["gateway_errors"] = errorSummary(run.Resp.Errors)
 		if len(run.Resp.Body) > 60000 {
@@ -574,6 +653,61 @@ func runProfile(cfg runCfg, prof string) error {
 						}
 					}
 				}
+			}
+			if i%3 == 2 && len(run.Requests) > 0 {
+				// two clients send the same mutation at the same moment (same text, variables and headers): each of them is
+				// delivered - every owner receives its root fields once per client
+				want := map[string]int{}
+				for _, rq := range run.Requests {
+					if analyze(env.fed, rq).Keyword == ast.Mutation {
+						want[rq.Svc]++
+					}
+				}
+				env.world.reset()
+				var gmu sync.Mutex
+				arrived := map[string]int{}
+				env.world.gate = func(rec *recorded) { // hold a mutation until its twin has arrived as well (or 100 ms have passed)
+					if rec.OpType != "mutation" {
+						return
+					}
+					gmu.Lock()
+					arrived[rec.Svc]++
+					gmu.Unlock()
+					for k := 0; k < 100; k++ {
+						gmu.Lock()
+						n := arrived[rec.Svc]
+						gmu.Unlock()
+						if n >= 2*want[rec.Svc] {
+							return
+						}
+						time.Sleep(time.Millisecond)
+					}
+				}
+				var wg sync.WaitGroup
+				for k := 0; k < 2; k++ {
+					wg.Add(1)
+					go func() {
+						defer wg.Done()
+						_, _ = env.gw.do(context.Background(), q, vars, "", hdr)
+					}()
+				}
+				wg.Wait()
+				env.world.gate = nil
+				got := map[string]int{}
+				for _, rq := range env.world.requests() {
+					if analyze(env.fed, rq).Keyword == ast.Mutation {
+						got[rq.Svc]++
+					}
+				}
+				okTwice, d := true, ""
+				for svc, n := range want {
+					if got[svc] != 2*n {
+						okTwice = false
+						d = fmt.Sprintf("two clients sent this mutation at the same moment; service %s received %d mutation request(s), %d per client were due", svc, got[svc], n)
+					}
+				}
+				sum.GoOracle = append(sum.GoOracle, oracleResult{Case: name, Component: "prop.c16.each_client_delivered", OK: okTwice, Detail: d})
+				sum.Features["same_mutation_from_two_clients_at_once"]++
 			}
 			if again != nil && len(again.Resp.Body) < 60000 {
 				n2 := name + "-again"
